@@ -145,6 +145,12 @@ func runC15Case(t *testing.T, c c15Case) CaseOut {
 			e.addrNet = "tcp"
 		case "mesh":
 			e.addrNet = "netceptor-n1"
+		case "mesh-unixname":
+			// a mesh stream's network name carries the local node ID: "netceptor-<id>"; an ID that happens to contain
+			// "unix" does not make the connection a local Unix socket
+			e.addrNet = "netceptor-unix-n1"
+		case "unixgram-like":
+			e.addrNet = "tcp-unix"
 		}
 		// the unit the command refers to
 		var unit workceptor.WorkUnit
@@ -323,8 +329,11 @@ func runC15Case(t *testing.T, c c15Case) CaseOut {
 func runC15(w *W) {
 	c15ReplayCases(w)
 	for _, cmd := range []string{"submit", "cancel", "release", "force-release", "results"} {
-		for _, conn := range []string{"unix", "tcp", "mesh"} {
+		for _, conn := range []string{"unix", "tcp", "mesh", "mesh-unixname", "unixgram-like"} {
 			for _, typ := range []string{"signed", "plain", "remote-signed", "remote-plain", "unknown"} {
+				if strings.Contains(conn, "-") && typ != "signed" && typ != "remote-signed" {
+					continue
+				}
 				if cmd == "results" && strings.HasPrefix(typ, "remote") {
 					continue // results of a never-started remote unit do not terminate; covered by C05
 				}
@@ -367,7 +376,7 @@ func init() {
 		ID:        "C15",
 		Level:     "exploration",
 		Technique: "exhaustive enumeration of command x connection kind x work type x token through the real RunControlSession/Workceptor with recording in-process work units; decision compared with the statement",
-		Rule: "5 commands x {unix, tcp, mesh address} x {verifying, non-verifying, remote with/without signing, unknown} x 20 tokens (absent, empty, garbage, valid RS512, valid RS256, expired, other audience, several audiences incl. this node, other key, alg none, HS256 keyed with the public key PEM, truncated, payload swapped under a valid signature, no exp, not-before in the future, no audience claim, empty audience list, blank audience, audiences that extend / shorten / upper-case the node ID). " +
+		Rule: "5 commands x {unix, tcp, mesh address, mesh address of a node whose ID contains 'unix', 'tcp-unix'} x {verifying, non-verifying, remote with/without signing, unknown} x 20 tokens (absent, empty, garbage, valid RS512, valid RS256, expired, other audience, several audiences incl. this node, other key, alg none, HS256 keyed with the public key PEM, truncated, payload swapped under a valid signature, no exp, not-before in the future, no audience claim, empty audience list, blank audience, audiences that extend / shorten / upper-case the node ID). " +
 			"submit additionally with the signwork field absent, \"true\" or \"false\" (it asks for relayed work to be signed and must not influence whether the submission itself is verified). Replay: a token that was accepted once is presented again 12 virtual minutes later (5 commands x tcp/mesh x 3 valid token kinds) and must be refused as expired. Tokens the node creates itself: a real daemon (signing key, token lifetime 3 s) relays every sequence of <=2 (and those of 3 ending in a signed one; thorough: all of 3) submissions from {signed, signed with ttl=1h, unsigned} to a recording stand-in for the control service on a real second node: each token verifies with the configured key, names the target node, and expires within the configured lifetime. Every combination is a distinct case; all are non-trivial. Effect = unit created / Cancel or Release reached the unit / unit removed / result stream started.",
 		Assumptions: []string{"a token without exp is left open by the statement (either outcome accepted)", "a submit names the verifying type by its local registration"},
 		Run:         runC15,
